@@ -117,7 +117,7 @@ func genPager(r *Rng, g *PageGen) pagerCase {
 		}
 	}
 	junkHref := func() (string, string) {
-		switch r.Intn(9) {
+		switch r.Intn(11) {
 		case 0:
 			return "javascript:void(0)", "js"
 		case 1:
@@ -134,8 +134,22 @@ func genPager(r *Rng, g *PageGen) pagerCase {
 			return "http://[::1", "malformed"
 		case 7:
 			return "javascript:/a?page=" + strconv.Itoa(r.Range(1, 9)), "js-path"
-		default:
+		case 8:
 			return "//evil.example.net" + "/news/story?page=" + strconv.Itoa(r.Range(1, 9)), "offsite"
+		default:
+			// hosts that merely start with, or smuggle in, the page's host
+			pu, _ := nurl.Parse(fam.URL(r.Range(1, 9)))
+			if pu == nil {
+				return "#", "hash"
+			}
+			switch r.Intn(3) {
+			case 0:
+				return pu.Scheme + "://" + pu.Host + ".mirror-cdn.net" + pu.RequestURI(), "lookalike-host"
+			case 1:
+				return pu.Scheme + "://" + pu.Host + "@tracker.example.net" + pu.RequestURI(), "userinfo-host"
+			default:
+				return pu.Scheme + "://" + pu.Hostname() + ":8443" + pu.RequestURI(), "other-port"
+			}
 		}
 	}
 	sep := pagerSeps[r.Intn(len(pagerSeps))]
@@ -239,15 +253,28 @@ func genPager(r *Rng, g *PageGen) pagerCase {
 	sb.WriteString("<p>" + g.words(60) + "</p>")
 	if r.Chance(40) {
 		// numeric noise: comment counts, dates, footnotes
-		switch r.Intn(4) {
+		switch r.Intn(6) {
 		case 0:
 			fmt.Fprintf(&sb, `<p>Comments <a href="%s/comments">%d</a> Shares <a href="%s/share">%d</a></p>`, fam.Bare, r.Range(1, 40), fam.Bare, r.Range(1, 40))
 		case 1:
 			sb.WriteString(`<p>Posted on 12 05 2024 at 10 30</p>`)
 		case 2:
 			sb.WriteString(`<div class="calendar"><a href="/2024/05/1">1</a> <a href="/2024/05/2">2</a> <a href="/2024/05/3">3</a> 4 <a href="/2024/05/5">5</a></div>`)
-		default:
+		case 3:
 			fmt.Fprintf(&sb, `<p>See also <a href="http://other.example.net/x?page=2">2</a> and <a href="/unrelated/list?page=3">3</a></p>`)
+		default:
+			// the same article on a partner host: same path structure, other host
+			sb.WriteString(`<div class="partner">Also on our partner site: `)
+			for i := 1; i <= 3; i++ {
+				mu := fam.URL(i)
+				if pu, err := nurl.Parse(mu); err == nil {
+					pu.Host = "partner.example.org"
+					mu = pu.String()
+				}
+				fmt.Fprintf(&sb, `<a href="%s">%d</a> `, mu, i)
+			}
+			sb.WriteString(`</div>`)
+			desc["noise-mirror"] = "1"
 		}
 		desc["noise"] = "1"
 	}
